@@ -342,6 +342,7 @@ func main() {
 	c.Require("s1_tag_checks", 1000)
 	c.Require("s1_metric_series", 100)
 	c.Require("s1_ids_handed_over", 100)
+	c.Require("s2_restarts_with_an_empty_output_in_front", 2)
 	c.Require("s2_chunks_on_disk", 100)
 	c.Require("s2_chunks_consumed_after_restart", 50)
 	c.Require("s2_nontrivial_tuples", 20)
